@@ -15,7 +15,8 @@ RULE = (
     "repeats) x 12 full spellings and 14 spellings with N/S and/or E/W left out x default_ns/default_ew supplied through "
     "{config text, parse() keyword, MasterConfig (set before or after the object is created), nothing} and independently to find_twprge; plus OCR look-alike letters "
     "(I, l, O, S for 1, 1, 0, 5) substituted into the numbers of T..R.. spellings under ocr_scrub. Each Twp/Rge heads a "
-    "'Sec N: block' tract. Expected natural forms, tracts and the fixed_twprge warning are computed from the abstract value. "
+    "'Sec N: block' tract; optionally a parse mode that is conservative on such text (segment, the colon modes, a forced TRS_desc layout, sec_within, "
+    "parse_qq with clean_qq) is switched on as well. Expected natural forms, tracts and the fixed_twprge warning are computed from the abstract value. "
     "Non-trivial: >= 2 Twp/Rges, or a missing direction, or an OCR substitution. Distinct = distinct abstract case."
 )
 ASSUMPTIONS = [
@@ -37,6 +38,8 @@ NO_EW = {"TN-R": "T{t}{N}-R{r}", "words": "Township {t} {North}, Range {r}", "ba
 OCR = {"std": "T{t}{N}-R{r}{W}", "words": "Township {t} {North}, Range {r} {West}", "abbr": "Twp. {t} {N}., Rge. {r} {W}.", "dashed": "T-{t}-{N}-R-{r}-{W}"}
 _WORD = {"n": "North", "s": "South", "e": "East", "w": "West"}
 BLOCKS = ["NE/4", "Lots 1 - 3", "That part lying north of the river", "ALL", "W/2, less and except the road"]
+
+MODES = ["", "", "", "segment", "sec_colon_cautious", "sec_colon_required", "TRS_desc", "segment,sec_colon_cautious", "parse_qq,clean_qq", "sec_within"]
 
 NUM = st.one_of(st.sampled_from([1, 11, 111, 2, 22, 3, 13, 31, 9, 10, 100, 101, 154, 15, 54, 97, 7, 150, 105, 510]), st.integers(1, 999))
 
@@ -82,6 +85,8 @@ def case(draw, ocr=False):
         "trs": trs, "sep": draw(st.sampled_from([", ", "\n", ";\n", "\n\n"])), "tsep": draw(st.sampled_from([" ", "\n", ", "])),
         "channel": draw(st.sampled_from(["config", "config_long", "kw", "kw_over_config", "master", "master_late", "none"])),
         "dns": draw(st.sampled_from("ns")), "dew": draw(st.sampled_from("ew")), "ocr": ocr,
+        # an optional parse mode that is conservative on these texts (every Twp/Rge heads 'Sec N: block'): the reading of the Twp/Rges may not depend on it
+        "mode": draw(st.sampled_from(MODES)),
     }
 
 
@@ -132,7 +137,7 @@ def oracle(c):
     old = (MasterConfig.default_ns, MasterConfig.default_ew)
     try:
         ch = c["channel"]
-        ocr_cfg = "ocr_scrub" if c["ocr"] else ""
+        ocr_cfg = ",".join(x for x in ("ocr_scrub" if c["ocr"] else "", c.get("mode", "")) if x)
         if ch == "config":
             d = PLSSDesc(text, config=",".join(x for x in (dns, dew, ocr_cfg) if x))
         elif ch == "config_long":
@@ -155,13 +160,14 @@ def oracle(c):
             d.parse()
         else:
             d = PLSSDesc(text, config=ocr_cfg)
-        ctx = dict(text=text, channel=ch, defaults=[dns, dew], pp_desc=d.pp_desc, want=nat)
+        ctx = dict(text=text, channel=ch, defaults=[dns, dew], pp_desc=d.pp_desc, want=nat, mode=c.get("mode", ""))
+        label = ch + ("+" + c["mode"] if c.get("mode") else "")
         got_nat = NATURAL.findall(d.pp_desc)
         if got_nat != nat:
-            fails.append(Failure("pp_desc_twprge", f"{text!r} [{ch} {dns}{dew}]: preprocessed text has {got_nat}, expected {nat}", **ctx))
+            fails.append(Failure("pp_desc_twprge", f"{text!r} [{label} {dns}{dew}]: preprocessed text has {got_nat}, expected {nat}", **ctx))
         got_tr = [(t.trs, t.desc) for t in d.tracts]
         if got_tr != tracts:
-            fails.append(Failure("tracts", f"{text!r} [{ch} {dns}{dew}]: tracts {got_tr}, expected {tracts}", got=got_tr, want_tracts=tracts, **ctx))
+            fails.append(Failure("tracts", f"{text!r} [{label} {dns}{dew}]: tracts {got_tr}, expected {tracts}", got=got_tr, want_tracts=tracts, **ctx))
         any_missing = any(tr["missing"] != "none" for tr in c["trs"])
         has_flag = any(isinstance(f, str) and f.startswith("fixed_twprge<") for f in d.w_flags)
         if not c["ocr"] and has_flag != any_missing:
@@ -196,7 +202,7 @@ def nontrivial(c):
 
 
 def classes(c):
-    out = {f"channel={c['channel']}", f"n={len(c['trs'])}"}
+    out = {f"channel={c['channel']}", f"n={len(c['trs'])}", f"mode={c.get('mode', '')}"}
     for tr in c["trs"]:
         out.add(f"case={tr.get('case', 'asis')}")
         out.add(f"missing={tr['missing']}")
@@ -211,13 +217,13 @@ def classes(c):
 
 
 def render(c):
-    return {"text": text_of(c), "channel": c["channel"], "defaults": [c["dns"], c["dew"]], "expected": expected(c)[0]}
+    return {"text": text_of(c), "channel": c["channel"], "defaults": [c["dns"], c["dew"]], "mode": c.get("mode", ""), "expected": expected(c)[0]}
 
 
 SUBS = [
     Sub("spellings", oracle, strategy=lambda tier: case(), validate=validate, nontrivial=nontrivial, classes=classes, render=render,
         n={"quick": 1000, "thorough": 15000}, shards={"quick": 8, "thorough": 16},
-        essential=("missing=both", "missing=ns", "missing=ew", "channel=config", "channel=kw", "channel=master", "channel=master_late", "channel=kw_over_config", "case=lower", "case=upper", "same_numbers_twice",
+        essential=("missing=both", "missing=ns", "missing=ew", "channel=config", "channel=kw", "channel=master", "channel=master_late", "channel=kw_over_config", "case=lower", "case=upper", "same_numbers_twice", "mode=segment", "mode=sec_colon_required", "mode=TRS_desc",
                    "number_substring_collision")),
     Sub("ocr", oracle, strategy=lambda tier: case(ocr=True), validate=validate, nontrivial=nontrivial, classes=classes, render=render,
         n={"quick": 500, "thorough": 6000}, shards={"quick": 4, "thorough": 16}),
